@@ -38,6 +38,25 @@ Round 4 added two further kinds of case (design_notes/C15.md, "Round 4 hardening
                  (true convolution of the mapping matrices, A^T N^-1 d, A^T N^-1 A, backward error of the
                  solution, A s, s^T H s, log det) on both formalisms where affordable, plus preload
                  bit-transparency at that size.
+
+Round 5/6 (design_notes/C15.md, "Round 5/6 hardening"; generator sections 12-18, `_r5_cases`):
+  decade_* / near_* / far_* / extreme_*   ordinary cases on worlds whose ingredients are multiplied by 2^k (k up to
+                 +-45, +-400 for the data, +-200 / +-100 for noise / PSF), nearly uniform / equal / diagonal / zero
+                 ingredients (spread 2^-30), origins and pixel scales far from 0 / 1, a w_tilde of a noise map that
+                 differs by 1 + 2^-30; exact comparisons as everywhere, tolerant ones relative to the decade (`rel`)
+  own_*          ownership histories: three rounds of the SAME world built from fresh equal inputs with a fresh
+                 Preloads; after each round the caller edits in place every array it was handed or had handed over
+  layout_* / built_* / slot_layout_*   equal values as Fortran-ordered / transposed-view / strided / negative-stride /
+                 read-only / float32 arrays, datasets built from another dataset's members, masks built from masks,
+                 natively stored structures; the reference is the plain twin world
+  conf_*         configuration histories: general.inversion.* flipped BETWEEN the inversions (item assignment or a
+                 pushed directory) on reused and on fresh objects; explicit arguments as controls; the model gets the
+                 diagonal value the docstrings promise, the oracle the same values passed explicitly
+  options_pairwise   every constructor option of SettingsInversion / Preloads (inspect.signature) crossed pairwise with
+                 each other, the solver / entry-point options, Preloads.use_w_tilde and the slots (covering array)
+  reassign_slots slots of one Preloads object emptied / filled / re-assigned between the inversions of one world
+  mid_* / direct_decade*   the direct numpy statement beyond 2^16 mapping-matrix elements (thorough: frames beyond
+                 2^16 / 2^17 pixels, 2^15 sub-pixels), at other decades and with a nearly uniform noise map
 """
 from __future__ import annotations
 
@@ -154,29 +173,60 @@ class World:
         H, W = w["h"], w["w"]
         m = np.array([c == "1" for c in w["mask"]], dtype=bool).reshape(H, W)
         ps = w.get("pixel_scales", 1.0)
-        self.mask = aa.Mask2D(mask=m, pixel_scales=ps)
+        if isinstance(ps, (list, tuple)):
+            ps = tuple(_frac(v) for v in ps)
+        elif isinstance(ps, str):
+            ps = _frac(ps)
+        okw = {}
+        if w.get("origin") is not None:
+            okw["origin"] = tuple(_frac(v) for v in w["origin"])
+        via = w.get("ds_via")
+        self.inputs = []  # the numpy arrays this caller built and handed over
+        self.mask = aa.Mask2D(mask=m, pixel_scales=ps, **okw)
+        if via == "mask_of_mask":
+            # a structure built from another structure, with the explicit (equal) origin
+            self.mask = aa.Mask2D(mask=self.mask, pixel_scales=ps, origin=okw.get("origin", (0.0, 0.0)))
         kern = self._arr([[_frac(v) for v in row] for row in w["psf"]])
         psf = aa.Kernel2D.no_mask(values=kern, pixel_scales=ps)
-        data = aa.Array2D.no_mask(
-            values=self._arr(np.array([_frac(v) for v in w["data"]]).reshape(H, W).tolist()), pixel_scales=ps)
-        noise = aa.Array2D.no_mask(
-            values=self._arr(np.array([_frac(v) for v in w["noise"]]).reshape(H, W).tolist()), pixel_scales=ps)
+        dvals = self._arr(np.array([_frac(v) for v in w["data"]]).reshape(H, W).tolist())
+        nvals = self._arr(np.array([_frac(v) for v in w["noise"]]).reshape(H, W).tolist())
+        if via == "native":
+            # natively stored structures on an all-unmasked mask instead of the slim default
+            full = aa.Mask2D.all_false(shape_native=(H, W), pixel_scales=ps, **okw)
+            data = aa.Array2D(values=dvals, mask=full, store_native=True)
+            noise = aa.Array2D(values=nvals, mask=full, store_native=True)
+        else:
+            data = aa.Array2D.no_mask(values=dvals, pixel_scales=ps, **okw)
+            noise = aa.Array2D.no_mask(values=nvals, pixel_scales=ps, **okw)
         self.ds = aa.Imaging(data=data, noise_map=noise, psf=psf,
                              use_normalized_psf=w.get("normalize_psf", True)).apply_mask(mask=self.mask)
+        if via == "parts":
+            # a dataset built from the (masked) members of another dataset; its PSF is normalized already
+            self.ds = aa.Imaging(data=self.ds.data, noise_map=self.ds.noise_map, psf=self.ds.psf,
+                                 use_normalized_psf=False)
         self.n = int(self.mask.pixels_in_mask)
         self.objs = [self._obj(o) for o in w["objs"]]
 
     def _arr(self, nested):
-        """array-valued input in the world's dtype / container: float64 ndarray (default), int64 ndarray
-        or nested Python int lists for integer-valued worlds (the results must be the same real numbers)"""
+        """array-valued input in the world's dtype / container / memory layout: float64 ndarray (default), int64
+        ndarray or nested Python int lists for integer-valued worlds, Fortran-ordered / transposed-view /
+        strided / read-only / float32 arrays (the results must be the same real numbers)"""
         w = self.spec
         if w.get("int_inputs"):
             ints = np.array(nested, dtype=np.float64)
             assert np.all(ints == np.round(ints))
             ints = ints.astype(np.int64)
-            return ints.tolist() if w.get("container") == "list" else ints
+            if w.get("container") == "list":
+                return ints.tolist()
+            out = layout_of(ints, w.get("layout"))
+            self.inputs.append(out)
+            return out
         a = np.array(nested, dtype=np.float64)
-        return a.tolist() if w.get("container") == "list" else a
+        if w.get("container") == "list":
+            return a.tolist()
+        out = layout_of(a, w.get("layout"))
+        self.inputs.append(out)
+        return out
 
     def _obj(self, o):
         aa = self.aa
@@ -194,10 +244,12 @@ class World:
         mm = np.array([[_frac(v) for v in row] for row in o["mm"]])[: self.n]
         if self.spec.get("int_inputs"):
             mm = mm.astype(np.int64)
+        self.inputs.append(mm)
         ov = None
         if o.get("override"):
             # what PyAutoGalaxy's linear light profiles supply: the already-operated matrix
             ov = self.ds.convolver.convolve_mapping_matrix(mapping_matrix=mm)
+            self.inputs.append(ov)
         return aa.m.MockLinearObjFuncList(parameters=mm.shape[1], grid=grid, mapping_matrix=mm,
                                           regularization=reg, operated_mapping_matrix_override=ov)
 
@@ -221,11 +273,34 @@ def settings_of(aa, use_w_tilde, case):
         kw["no_regularization_add_to_curvature_diag_value"] = _frac(case["diag_value"])
     if case.get("p_initial") is not None:
         kw["positive_only_uses_p_initial"] = case["p_initial"]
+    # any further constructor option of SettingsInversion (introspected, R5-F); values are JSON-able
+    kw.update(case.get("settings_kw") or {})
     return aa.SettingsInversion(use_w_tilde=use_w_tilde, use_positive_only_solver=case["pos"], **kw)
+
+
+def explicit_settings_of(aa, use_w_tilde, case, eff):
+    """the control of a configuration history: the values in force passed as explicit arguments"""
+    kw = dict(case.get("settings_kw") or {})
+    return aa.SettingsInversion(use_w_tilde=use_w_tilde, use_positive_only_solver=eff["pos"],
+                                positive_only_uses_p_initial=eff["p_initial"],
+                                no_regularization_add_to_curvature_diag_value=eff["diag"], **kw)
 
 
 def pos_eff(case):
     return True if case["pos"] is None else bool(case["pos"])
+
+
+NEAR = 1.0 + 2.0 ** -30  # relative 9.3e-10: a different number, inside every np.isclose / allclose default
+
+
+def is_foreign(case):
+    return case.get("wt_kind") in ("foreign", "foreign_near")
+
+
+def foreign_factor(case):
+    """factor on the noise map a foreign w_tilde was computed for: 2 ("foreign") or 1 + 2^-30 ("foreign_near":
+    at a world scale of 2^-40 the absolute difference is ~1e-21)"""
+    return {"foreign": 2.0, "foreign_near": NEAR}.get(case.get("wt_kind"), 1.0)
 
 
 def make_inversion(aa, wd, case, st, **kw):
@@ -390,6 +465,8 @@ def apply_edit(w, e):
     """world B of a reuse history: world A with ONE ingredient changed (pure function on the JSON spec)"""
     w2 = json.loads(json.dumps(w))
     k = e["kind"]
+    if k == "none":  # ownership / configuration / re-assignment histories: the same world throughout
+        return w2
     if k == "reg":
         w2["objs"][e["obj"]]["reg"] = e["value"]
     elif k in ("data", "noise"):
@@ -432,8 +509,8 @@ def same_value(a, b):
     return x.shape == y.shape and x.dtype == y.dtype and x.tobytes() == y.tobytes()
 
 
-def owned_copy(name, v, readonly=False):
-    """a caller-owned copy of a slot value in the form Preloads takes it"""
+def owned_copy(name, v, readonly=False, lay=None):
+    """a caller-owned copy of a slot value in the form Preloads takes it (optionally in another memory layout)"""
     if v is None:
         return None
     if name == "w_tilde" or isinstance(v, float):
@@ -441,15 +518,299 @@ def owned_copy(name, v, readonly=False):
     if isinstance(v, dict):
         v = list(v.values())
     if isinstance(v, list):
-        out = {i: np.array(a, copy=True) for i, a in enumerate(v)}
+        out = {i: layout_of(np.array(a, copy=True), lay) for i, a in enumerate(v)}
         if readonly:
             for a in out.values():
                 a.flags.writeable = False
         return out
-    out = np.array(v, copy=True)
+    out = layout_of(np.array(v, copy=True), lay)
     if readonly:
         out.flags.writeable = False
     return out
+
+
+# --------------------------------------------------------------------------------------------------
+# round 5/6: decades, layouts, ownership, configuration, options (design_notes/C15.md "Round 5/6 hardening")
+# --------------------------------------------------------------------------------------------------
+LAYOUTS = ["fortran", "tview", "strided", "negstride", "readonly", "float32"]
+SLOT_LAYOUTS = ["fortran", "tview", "strided", "negstride", "readonly"]
+# numpy hands arrays to BLAS / LAPACK as they lie in memory: a preloaded matrix in another memory order is summed in
+# another order (s^T H s, A^T A, the solver), so reads downstream of a re-laid-out slot agree to rounding, not bit for
+# bit — 1e-9 as for the alternative routes.  (Bytes of the preloads and repeatability stay exact.)
+SOFT_LAYOUTS = {"fortran", "tview", "strided", "negstride"}
+# keys of a world spec that change HOW equal values are handed over, never the values: the preload-free
+# reference of such a world is computed from its plain twin (C-contiguous float64 arrays, plain constructors)
+VARIANT_KEYS = ("layout", "ds_via")
+# (masking a dataset a second time is NOT among them: Imaging.apply_mask normalizes the PSF again, which moves its
+#  last bits, so a twice-masked dataset is a slightly different dataset)
+DS_VIAS = ["parts", "mask_of_mask", "native"]
+
+
+def layout_of(a, how):
+    """an equal-valued array in another memory layout / dtype (R5-C): Fortran order, a transposed view of a
+    C buffer, a strided slice of a larger buffer, negative strides, read-only, float32 (only exact values)"""
+    if how is None:
+        return a
+    a = np.asarray(a)
+    if how == "fortran":
+        return np.asfortranarray(a)
+    if how == "tview":
+        return np.ascontiguousarray(a.T).T
+    if how == "strided":
+        big = np.full(tuple(2 * s + 1 for s in a.shape), 7.25, dtype=a.dtype)
+        sl = tuple(slice(1, None, 2) for _ in a.shape)
+        big[sl] = a
+        return big[sl]
+    if how == "negstride":
+        rev = (slice(None, None, -1),) * a.ndim
+        return np.ascontiguousarray(a[rev])[rev]
+    if how == "readonly":
+        b = np.array(a, copy=True)
+        b.flags.writeable = False
+        return b
+    if how == "float32":
+        if a.dtype != np.float64:
+            return a
+        b = a.astype(np.float32)
+        return b if np.array_equal(b.astype(np.float64), a) else a
+    raise ValueError(how)
+
+
+def plain_world(w):
+    if not any(w.get(k) for k in VARIANT_KEYS):
+        return w
+    return {k: v for k, v in w.items() if k not in VARIANT_KEYS}
+
+
+def _pow2(k):
+    return Fraction(2) ** int(k)
+
+
+def scale_world(w, data=0, noise=0, psf=0, func=0, reg=0):
+    """the world with whole ingredients multiplied by exact powers of two (R5-A / R5-E): every value stays an
+    exact rational string, hence an exact double as long as it is inside the normal range"""
+    w2 = json.loads(json.dumps(w))
+
+    def sc(v, k):
+        return str(Fraction(v) * _pow2(k))
+
+    if data:
+        w2["data"] = [sc(v, data) for v in w2["data"]]
+    if noise:
+        w2["noise"] = [sc(v, noise) for v in w2["noise"]]
+    if psf:
+        w2["psf"] = [[sc(v, psf) for v in r] for r in w2["psf"]]
+        w2["normalize_psf"] = False
+    for o in w2["objs"]:
+        if func and o["kind"] == "func":
+            o["mm"] = [[sc(v, func) for v in r] for r in o["mm"]]
+        if reg and o.get("reg") is not None:
+            o["reg"] = sc(o["reg"], reg)
+    if data or noise or psf or func or reg:
+        w2["int_inputs"] = False
+    return w2
+
+
+_PINNED = {}
+
+
+def pinned_inversion_config():
+    """the `inversion` section of the pinned harness configuration, read from the YAML file itself (never
+    through the code under test)"""
+    if not _PINNED:
+        import yaml
+        from common import VERIF
+
+        with open(VERIF / "harness" / "config" / "general.yaml") as f:
+            _PINNED.update(yaml.safe_load(f)["inversion"])
+    return dict(_PINNED)
+
+
+CONF_KEYS = {"diag": "no_regularization_add_to_curvature_diag_value", "pos": "use_positive_only_solver",
+             "p_initial": "positive_only_uses_p_initial", "check": "check_reconstruction",
+             "border": "use_border_relocator"}
+
+
+def conf_values(conf):
+    """{config key: python value} of a phase's configuration descriptor ({"diag": "1/64", "pos": False, ...})"""
+    out = {}
+    for k, v in (conf or {}).items():
+        out[CONF_KEYS[k]] = _frac(v) if k == "diag" else v
+    return out
+
+
+class conf_in_force:
+    """context manager: the values of general.inversion.* in force while a phase runs — set either by item
+    assignment on the live configuration or by pushing a configuration directory in front — and restored
+    afterwards, also on exceptions (R5-D)"""
+
+    def __init__(self, conf, how="item"):
+        self.vals = conf_values(conf)
+        self.how = how or "item"
+
+    def __enter__(self):
+        if not self.vals:
+            return self
+        from autoconf import conf
+
+        inst = conf.instance
+        self.inst = inst
+        self.before = {k: inst["general"]["inversion"][k] for k in self.vals if k in inst["general"]["inversion"]}
+        if self.how == "push":
+            import tempfile
+            import yaml
+
+            self.saved_configs = list(inst.configs)
+            self.tmp = tempfile.mkdtemp(prefix="c15conf_")
+            with open(os.path.join(self.tmp, "general.yaml"), "w") as f:
+                yaml.safe_dump({"inversion": dict(self.vals)}, f)
+            inst.push(new_path=self.tmp)
+        else:
+            sec = inst["general"]["inversion"]
+            self.saved = {k: sec[k] for k in self.vals if k in sec}
+            self.added = [k for k in self.vals if k not in sec]
+            for k, v in self.vals.items():
+                sec[k] = v
+        return self
+
+    def __exit__(self, *exc_info):
+        if not self.vals:
+            return False
+        if self.how == "push":
+            import shutil
+
+            self.inst.configs = self.saved_configs
+            shutil.rmtree(self.tmp, ignore_errors=True)
+        else:
+            sec = self.inst["general"]["inversion"]
+            for k, v in self.saved.items():
+                sec[k] = v
+            for k in self.added:
+                try:
+                    del sec[k]
+                except Exception:
+                    pass
+        now = self.inst["general"]["inversion"]
+        for k, v in self.before.items():
+            if now[k] != v:  # the harness must leave the pinned configuration exactly as it found it
+                raise RuntimeError(f"harness: configuration value {k} not restored ({now[k]!r} != {v!r})")
+        return False
+
+
+def effective_settings(case, conf=None):
+    """what the docstrings of SettingsInversion promise: an explicit argument wins, None follows the configuration
+    in force at call time"""
+    pinned = pinned_inversion_config()
+    cv = conf_values(conf)
+
+    def pick(arg, key):
+        if arg is not None:
+            return arg
+        return cv.get(key, pinned[key])
+
+    diag = case.get("diag_value")
+    return {"diag": float(pick(None if diag is None else _frac(diag), CONF_KEYS["diag"])),
+            "pos": bool(pick(case.get("pos"), CONF_KEYS["pos"])),
+            "p_initial": bool(pick(case.get("p_initial"), CONF_KEYS["p_initial"]))}
+
+
+def raw_array(v):
+    """the numpy buffer behind an autoarray structure / ndarray (None for anything else)"""
+    if hasattr(v, "_array") and isinstance(getattr(v, "_array"), np.ndarray):
+        return v._array
+    if isinstance(v, np.ndarray):
+        return v
+    return None
+
+
+def arrays_behind(obj, depth=2, _seen=None):
+    """every numpy buffer reachable from a returned / accepted object: the object itself, the values of a dict /
+    list, and (to `depth`) the ndarray-valued attributes already present in its __dict__ (cached properties
+    included; nothing is computed)"""
+    _seen = _seen if _seen is not None else set()
+    out = []
+    if obj is None or id(obj) in _seen or isinstance(obj, (str, bytes, int, float, bool)):
+        return out
+    _seen.add(id(obj))
+    a = raw_array(obj)
+    if a is not None:
+        out.append(a)
+    if isinstance(obj, dict):
+        for v in list(obj.values()):
+            out += arrays_behind(v, depth, _seen)
+        return out
+    if isinstance(obj, (list, tuple)):
+        for v in obj[:64]:
+            out += arrays_behind(v, depth, _seen)
+        return out
+    if depth > 0 and hasattr(obj, "__dict__"):
+        for v in list(vars(obj).values()):
+            if raw_array(v) is not None or (depth > 1 and hasattr(v, "__dict__")) or isinstance(v, (dict, list)):
+                out += arrays_behind(v, depth - 1, _seen)
+    return out
+
+
+def scribble(arrays, how):
+    """the caller edits, in place, arrays it was handed or had handed over (R5-B); returns how many it could"""
+    done, seen = 0, set()
+    for a in arrays:
+        if a is None or id(a) in seen or a.size == 0:
+            continue
+        seen.add(id(a))
+        try:
+            if a.dtype == bool:
+                a[...] = ~a
+            elif np.issubdtype(a.dtype, np.floating):
+                if how == "nan":
+                    a[...] = np.nan
+                else:
+                    a += 1.0
+            elif np.issubdtype(a.dtype, np.integer):
+                a += 1
+            else:
+                continue
+            done += 1
+        except (ValueError, TypeError):
+            pass  # read-only buffers cannot be edited by the caller either
+    return done
+
+
+def pairwise_rows(rng, factors, tries=24, cap=80):
+    """rows (dicts factor -> level) that together contain every pair of levels of every two factors at least once
+    (greedy covering array; `factors` = {name: [levels]}, first level = default)"""
+    names = sorted(factors)
+    uncovered = set()
+    for i, a in enumerate(names):
+        for b in names[i + 1:]:
+            for x in range(len(factors[a])):
+                for y in range(len(factors[b])):
+                    uncovered.add((a, x, b, y))
+    def unc(a, x, b, y):
+        return ((a, x, b, y) if a < b else (b, y, a, x)) in uncovered
+
+    rows = []
+    while uncovered and len(rows) < cap:
+        best, best_gain = None, -1
+        seed_pair = rng.choice(sorted(uncovered))
+        for _ in range(max(1, tries // 4)):
+            # AETG-style: start from an uncovered pair, then give every other factor (random order) the level that
+            # covers most still-uncovered pairs with the factors assigned so far
+            row = {seed_pair[0]: seed_pair[1], seed_pair[2]: seed_pair[3]}
+            rest = [n for n in names if n not in row]
+            rng.shuffle(rest)
+            gain = 1
+            for n in rest:
+                scores = [sum(1 for m, x in row.items() if unc(n, lv, m, x)) for lv in range(len(factors[n]))]
+                top = max(scores)
+                row[n] = rng.choice([lv for lv, sc in enumerate(scores) if sc == top])
+                gain += top
+            if gain > best_gain:
+                best, best_gain = row, gain
+        for i, a in enumerate(names):
+            for b in names[i + 1:]:
+                uncovered.discard((a, best[a], b, best[b]))
+        rows.append({n: factors[n][best[n]] for n in names})
+    return rows
 
 
 # --------------------------------------------------------------------------------------------------
@@ -506,6 +867,14 @@ class LargeWorld:
         if K.sum() == 0:
             K[k["kh"] // 2, k["kw"] // 2] += 1.0
         self.normalize = not k.get("signed")
+        if spec.get("near_uniform_noise"):
+            # R5-A: a noise map that is NOT uniform but passes every allclose / isclose default (spread 2^-30 .. 2^-26)
+            r3 = np.random.default_rng(spec["seed"] + 77)
+            self.noise_native = 2.5 * (1.0 + r3.integers(0, 16, size=(H, W)) * 2.0 ** -30)
+        if spec.get("scale_k"):
+            # R5-A / R5-E: the whole world at another decade (exact: powers of two)
+            self.data_native = np.ldexp(self.data_native, int(spec.get("scale_k_data", spec["scale_k"])))
+            self.noise_native = np.ldexp(self.noise_native, int(spec["scale_k"]))
         self.K_raw = K
         self.K = K / K.sum() if self.normalize else K
         self.mask = aa.Mask2D(mask=m, pixel_scales=ps)
@@ -956,6 +1325,8 @@ class C15(PropertyCheck):
                 c = self._large_case(dim, size, size, rng)
                 if c is not None:
                     yield {**{k: v for k, v in c.items() if k != "_cost"}, "tag": f"direct_{dim}"}
+        # 12.-18. round 5/6: decades, extremes, ownership, layouts, configuration, options, re-assignment, mid sizes
+        yield from self._r5_cases(tier, rng)
 
     # ================================================================== round 4: reuse histories
     @staticmethod
@@ -1111,6 +1482,446 @@ class C15(PropertyCheck):
                 yield from histories(world, edit, rep % 2 == 0, settings_w, False,
                                      [(2, f) for f in fault_rot if settings_w or f != "foreign_w_tilde"])
 
+    # ================================================================== round 5/6 streams
+    # candidate non-default values of the constructor options of SettingsInversion that an imaging inversion may
+    # be given (by name; options that appear later get values from their default's type, see _option_levels)
+    SETTINGS_LEVELS = {
+        "use_border_relocator": [True, False],
+        "force_edge_pixels_to_zeros": [False],
+        "force_edge_image_pixels_to_zeros": [True],
+        "image_pixels_source_zero": [[0], []],
+        "use_w_tilde_numpy": [True],
+        "use_source_loop": [True],
+        "use_linear_operators": [True],
+        "image_mesh_min_mesh_pixels_per_pixel": [0, 3],
+        "image_mesh_min_mesh_number": [0, 1],
+        "image_mesh_adapt_background_percent_threshold": [0.0, 0.5],
+        "image_mesh_adapt_background_percent_check": [0.0],
+        "tolerance": [0.0, 0.001],
+        "maxiter": [0, 1],
+    }
+    # options the other generator axes own
+    SETTINGS_OWNED = {"self", "use_w_tilde", "use_positive_only_solver", "positive_only_uses_p_initial",
+                      "no_regularization_add_to_curvature_diag_value"}
+    # constructor arguments of Preloads that no imaging inversion of autoarray consults
+    PRELOADS_UNUSED_LEVELS = [[], ["x"]]
+
+    def _option_levels(self):
+        """{option: [default marker, non-default values ...]} from the live constructor signatures (R5-F)"""
+        import inspect
+
+        aa = load_autoarray()
+        fac = {}
+        for name, p in inspect.signature(aa.SettingsInversion.__init__).parameters.items():
+            if name in self.SETTINGS_OWNED or p.kind in (p.VAR_POSITIONAL, p.VAR_KEYWORD):
+                continue
+            if name in self.SETTINGS_LEVELS:
+                lv = self.SETTINGS_LEVELS[name]
+            elif isinstance(p.default, bool):
+                lv = [not p.default]
+            elif isinstance(p.default, int) and not isinstance(p.default, bool):
+                lv = [0] if p.default != 0 else [1]
+            elif isinstance(p.default, float):
+                lv = [0.0] if p.default != 0.0 else [1.0]
+            else:
+                continue  # an option of unknown domain: nothing legal is known to put there
+            fac["set:" + name] = ["<default>"] + list(lv)
+        known = set(ALL_SLOTS) | {"self", "use_w_tilde", "relocated_grid"}
+        for name, p in inspect.signature(aa.Preloads.__init__).parameters.items():
+            if name in known or p.kind in (p.VAR_POSITIONAL, p.VAR_KEYWORD):
+                continue
+            if name in ("image_plane_mesh_grid_pg_list", "mapper_list", "traced_mesh_grids_list_of_planes",
+                        "image_plane_mesh_grid_list"):
+                fac["pre:" + name] = ["<default>"] + self.PRELOADS_UNUSED_LEVELS
+        return fac
+
+    def _r5_cases(self, tier, rng):
+        """12-18: decades / nearly-degenerate ingredients (R5-A), extreme magnitudes and mid sizes (R5-E), ownership
+        histories (R5-B), container / layout variants (R5-C), configuration histories (R5-D), pairwise crossed
+        constructor options and slot re-assignment histories (R5-F).  design_notes/C15.md "Round 5/6 hardening"."""
+        thorough = tier == "thorough"
+        with_mapper = [m for m in self.MIXES if any(c[0] == "m" for c in m)]
+        unreg = [m for m in self.MIXES if any(c in ("f", "fo", "mn") for c in m) and any(c[0] == "m" for c in m)]
+        # Two regularized mappers have the null direction (1, -1) in F + H that only the ABSOLUTE 1e-8 on the diagonal
+        # of the library's constant regularization lifts (cond ~ 1e10 at the unit decade); an unregularized block is
+        # lifted by the absolute default 1e-3.  Where F or H is scaled up those constants drown and the system is
+        # singular — a fact of the library's constants, not of preloading — so the scaled streams take at most one
+        # regularized mapper and an explicit diagonal value at the decade of F.
+        stable = [m for m in self.MIXES if sum(1 for c in m if c == "m") <= 1]
+        stable_m = [m for m in stable if any(c[0] == "m" for c in m)]
+        # The constant regularization matrix is c^2 L + 1e-8 with L a graph Laplacian: above c ~ 2^12 the 1e-8 is
+        # rounded away, H is exactly singular and the library refuses to take its log-determinant.  So a
+        # regularization coefficient follows the decade of F only up to 2^10, and where F is scaled up by more than
+        # 2^50 (H would drown in it) the world has no regularized object at all.
+        REG_CAP = 10
+        unreg_only = [["f"], ["f", "f"], ["mn"], ["mn", "f"]]
+
+        def mixes_for(f_up, need_mapper=False):
+            pool = unreg_only if f_up > 50 else stable
+            pool = [m for m in pool if not need_mapper or any(c[0] == "m" for c in m)]
+            return pool
+
+        def plain(mix, unusual=False):
+            w = self._world(rng, mix, unusual)
+            w["int_inputs"], w["container"] = False, None
+            return w
+
+        def case(tag, world, settings_w, slots, **kw):
+            c = {"tag": tag, "world": world, "settings_w": settings_w, "diag_value": None, "pos": False,
+                 "p_initial": None, "entry": None, "pre_use_w": None, "slots": list(slots), "source": "same",
+                 "wt_kind": "fresh", "history": self._history(rng, 2, "canonical")}
+            c.update(kw)
+            return c
+
+        def forms(mix):
+            return (False,) if all(c[0] != "m" for c in mix) else (False, True)
+
+        def some_slots():
+            return [s for s in ALL_SLOTS if rng.random() < 0.5]
+
+        def diag_for(k2):  # explicit diagonal value at the world's decade: 2^-10 * 2^k2
+            return str(Fraction(1, 1024) * _pow2(k2))
+
+        # the library's own check_reconstruction is an ABSOLUTE np.allclose test on the solution (documented): at
+        # the tiny decades it refuses every inversion, and near 1e-8 the two formalisms can fall on different sides
+        # of it.  It is a configuration value, so the decade streams run with it switched off.
+        NOCHECK = {"check": False}
+
+        def coherent(w, k):
+            """data, noise x 2^k, regularization coefficient x 2^-k (capped, see REG_CAP)"""
+            return scale_world(w, data=k, noise=k, reg=min(-k, REG_CAP)) if k else w
+
+        def f_up(ing, k):  # log2 of the factor on F
+            return {"noise": -2 * k, "world": -2 * k, "psf": 2 * k}.get(ing, 0)
+
+        def family(w, ing, k):
+            """(world, explicit diagonal value) with ONE ingredient at another decade; the regularization coefficient
+            and the diagonal value follow the decade of F, so that the system stays as well posed as at the unit
+            decade (otherwise the library's absolute 1e-8 / 1e-3 are all that lifts the null directions)"""
+            if ing == "data":
+                return scale_world(w, data=k), None
+            if ing == "noise":
+                return scale_world(w, noise=k, reg=min(-k, REG_CAP)), diag_for(-2 * k)
+            if ing == "psf":
+                return scale_world(w, psf=k, reg=min(k, REG_CAP)), diag_for(2 * k)
+            if ing == "func":
+                return scale_world(w, func=k), diag_for(max(0, 2 * k))
+            if ing == "reg":
+                return scale_world(w, reg=k), None
+            if ing == "world":
+                return coherent(w, k), diag_for(-2 * k)
+            raise ValueError(ing)
+
+        # ---- 12a. the whole world at another decade: data, noise x 2^k; regularization coefficient x 2^-k; the
+        #           diagonal value x 2^-2k (so that F, H, D scale exactly and every comparison means the same)
+        ks = [-45, -30, -12, 12, 30, 45] + ([-40, -20, -6, 6, 20, 40, -45, 45] if thorough else [])
+        for k in ks:
+            mix = rng.choice(mixes_for(-2 * k))
+            w0 = plain(mix, UNUSUAL_PSF and rng.random() < 0.5)
+            for j, sw in enumerate(forms(mix)):
+                for slots in ((list(CORE), some_slots()) if thorough else ((list(CORE), some_slots())[j % 2],)):
+                    yield case("decade_world", coherent(w0, k), sw, slots, conf=NOCHECK,
+                               diag_value=diag_for(-2 * k) if k < 0 else rng.choice([None, diag_for(-2 * k)]),
+                               pos=rng.choice([False, False, True, None]), rel=True, decade=k,
+                               history=self._history(rng, 2, rng.choice(["canonical", "permuted"])))
+        # ---- 12b. ONE ingredient at another decade
+        ones = [("data", 40), ("data", -40), ("noise", 20), ("noise", -20), ("psf", 20), ("psf", -20),
+                ("func", 20), ("func", -20), ("reg", REG_CAP), ("reg", -20)]
+        for rep in range(3 if thorough else 1):
+            for i, (ing, k) in enumerate(ones):
+                cands = [m for m in mixes_for(f_up(ing, k)) if (ing != "func" or any(c in ("f", "fr") for c in m))
+                         and (ing != "reg" or any(c in ("m", "fr") for c in m))]
+                mix = rng.choice(cands)
+                w0 = plain(mix)
+                if ing == "func":
+                    for o in w0["objs"]:
+                        o["override"] = False
+                w, dv = family(w0, ing, k)
+                fs = forms(mix)
+                yield case("decade_" + ing, w, fs[(i + rep) % len(fs)], list(CORE) if rep == 0 else some_slots(),
+                           pos=rng.choice([False, False, None]), rel=True, decade=k, conf=NOCHECK, diag_value=dv)
+        # ---- 12c. nearly uniform / nearly equal / nearly diagonal / nearly zero ingredients (relative spread
+        #           2^-30 .. 2^-26), at several decades
+        def near(v, j):
+            return str(Fraction(v) * (1 + Fraction(j, 1 << 30)))
+
+        kinds = ["uniform_noise", "equal_data", "delta_psf", "zero_data", "zero_reg", "equal_noise_data"]
+        for rep in range(3 if thorough else 1):
+            for i, kind in enumerate(kinds):
+                k = [-40, 0, 30][(i + rep + rng.randrange(3)) % 3]
+                if kind == "zero_reg" and k < 0:
+                    k = 0  # needs a regularized mapper, which the tiny decades cannot carry
+                mix = rng.choice(mixes_for(-2 * k, need_mapper=True) if kind != "zero_reg"
+                                 else [m for m in stable_m if "m" in m])
+                w = plain(mix)
+                n_pix = w["h"] * w["w"]
+                if kind in ("uniform_noise", "equal_noise_data"):
+                    w["noise"] = [near("5/2", rng.randrange(16)) for _ in range(n_pix)]
+                if kind in ("equal_data", "equal_noise_data"):
+                    w["data"] = [near("7/4", rng.randrange(16)) for _ in range(n_pix)]
+                if kind == "delta_psf":
+                    kh, kw_ = len(w["psf"]), len(w["psf"][0])
+                    w["psf"] = [[str(Fraction(rng.randrange(8), 1 << 30)) for _ in range(kw_)] for _ in range(kh)]
+                    w["psf"][kh // 2][kw_ // 2] = "1"
+                    w["normalize_psf"] = True
+                if kind == "zero_data":
+                    w["data"] = [str(Fraction(rng.randrange(-3, 8), 1 << 40)) if rng.random() < 0.7 else "0"
+                                 for _ in range(n_pix)]
+                if kind == "zero_reg":
+                    for o in w["objs"]:
+                        if o.get("reg") is not None:
+                            o["reg"] = str(Fraction(rng.choice([1, 3]), 1 << 20))
+                w = coherent(w, k)
+                fs = forms(mix)
+                yield case("near_" + kind, w, fs[(i + rep) % len(fs)], list(CORE) if rng.random() < 0.5 else some_slots(),
+                           pos=rng.choice([False, False, None]), rel=True, decade=k, conf=NOCHECK,
+                           diag_value=diag_for(-2 * k) if k < 0 else rng.choice([None, diag_for(-2 * k)]))
+        # ---- 12d. a w_tilde of a noise map that differs by 1 + 2^-30 (and by 2) at a tiny and at the unit decade: refused
+        for k, kind in ((-40, "foreign_near"), (0, "foreign_near"), (-40, "foreign")) + (
+                ((30, "foreign_near"), (-20, "foreign_near")) if thorough else ()):
+            mix = rng.choice([["m"], ["m", "f"], ["mn", "m"]] if -2 * k <= 50 else [["mn"], ["mn", "f"]])
+            w = coherent(plain(mix), k)
+            yield case("decade_" + kind, w, True, ["w_tilde"] + [s for s in CORE[1:] if rng.random() < 0.3],
+                       wt_kind=kind, rel=True, decade=k, conf=NOCHECK, diag_value=diag_for(-2 * k))
+        # ---- 12e. origins far from zero, pixel scales far from one (anisotropic)
+        for i, (org, ps) in enumerate([(["262145/2", "-262145/4"], None), (None, ["1/1048576", "3/2097152"]),
+                                       (["-131073/2", "524289/8"], ["1024", "1536"]),
+                                       (["2097153/2", "2097153/2"], ["3/2097152", "1/1048576"])]):
+            mix = rng.choice(with_mapper)
+            w = plain(mix, UNUSUAL_PSF and i % 2 == 1)
+            if org:
+                w["origin"] = org
+            if ps:
+                w["pixel_scales"] = ps
+            fs = forms(mix)
+            yield case("far_origin_scale", w, fs[i % len(fs)], list(CORE) if i % 2 else some_slots(),
+                       pos=rng.choice([False, None]))
+        # ---- 12f. R5-E: magnitudes towards the float64 limits for the quantities that get squared or multiplied
+        ext = [("data", 400, False), ("data", -400, False), ("noise", 200, False), ("noise", -200, False),
+               ("psf", 100, False), ("psf", -100, None), ("world", 200, None), ("world", -200, False)]
+        for rep in range(2 if thorough else 1):
+            for i, (ing, k, pos) in enumerate(ext):
+                mix = rng.choice(mixes_for(f_up(ing, k)))
+                w0 = plain(mix)
+                w, dv = family(w0, ing, k)
+                fs = forms(mix)
+                yield case("extreme_" + ing, w, fs[(i + rep) % len(fs)], list(CORE) if rep == 0 else some_slots(),
+                           pos=pos, rel=True, decade=k, conf=NOCHECK, diag_value=dv)
+        # ---- 13. R5-B ownership histories: observe -> the caller edits in place every array it was handed or had
+        #          handed over -> the same world from fresh equal inputs -> observe; three rounds
+        n_own = 24 if thorough else 6
+        for i in range(n_own):
+            mix = rng.choice(self.MIXES)
+            fs = forms(mix)
+            sw = fs[i % len(fs)]
+            w = self._world(rng, mix, UNUSUAL_PSF and rng.random() < 0.4)
+            w["container"] = None  # arrays, so that there is something the caller can edit
+            how = ["nan", "add"][i % 2]
+            slots = [[], list(CORE), list(NON_ALT_SLOTS), some_slots()][i % 4]
+            phases = [{"w": "a", "history": self._history(rng, rng.randint(1, 2), rng.choice(["canonical", "partial"])),
+                       "scribble": how} for _ in range(3)]
+            yield {"tag": "own_" + how, "kind": "reuse", "own": True, "world": w, "edit": {"kind": "none"},
+                   "settings_w": sw, **{**self._opts(rng, w), "pos": rng.choice([False, False, None])},
+                   "pre_use_w": None, "slots": slots, "source": "same", "wt_kind": "fresh", "refresh": "assign",
+                   "objs_mode": "rebuild", "readonly": False, "derive": False, "phases": phases,
+                   "history": [a for ph in phases for a in ph["history"]]}
+        # ---- 14. R5-C: equal values in another memory layout / dtype / through other constructors
+        for rep in range(4 if thorough else 2):
+            mix = rng.choice(with_mapper) if rep % 2 == 0 else rng.choice(self.MIXES)
+            w0 = plain(mix, UNUSUAL_PSF and rep % 2 == 1)
+            fs = forms(mix)
+            j = rep
+            def mine(idx):  # quick: the two base worlds share the variants between them
+                return thorough or idx % 2 == rep % 2
+
+            for idx, lay in enumerate(LAYOUTS):
+                if mine(idx):
+                    yield case("layout_" + lay, {**w0, "layout": lay}, fs[j % len(fs)],
+                               list(CORE) if j % 2 else some_slots(), **self._opts(rng, w0))
+                    j += 1
+            for idx, via in enumerate(DS_VIAS):
+                if mine(idx + 1):
+                    yield case("built_" + via,
+                               {**w0, "ds_via": via, "layout": rng.choice([None, None, "fortran", "strided"])},
+                               fs[j % len(fs)], list(CORE) if j % 2 else some_slots(), **self._opts(rng, w0))
+                    j += 1
+            for idx, lay in enumerate(SLOT_LAYOUTS):
+                if mine(idx):
+                    yield case("slot_layout_" + lay, w0, fs[j % len(fs)],
+                               list(NON_ALT_SLOTS) if j % 2 else [s for s in NON_ALT_SLOTS if rng.random() < 0.6],
+                               slot_layout=lay, history=self._history(rng, 2, rng.choice(["permuted", "partial"])),
+                               **{**self._opts(rng, w0), "pos": False})
+                    j += 1
+        # ---- 15. R5-D configuration histories: every value of general.inversion the anchored code reads is flipped
+        #          BETWEEN the inversions, on reused and on fresh objects; explicit arguments are the controls
+        def a_conf(w):
+            unreg_mapper = any(o["kind"] == "mapper" and o.get("reg") is None for o in w["objs"])
+            unreg_funcs = sum(1 for o in w["objs"] if o["kind"] == "func" and o.get("reg") is None)
+            diags = ["1/64", "1/4", "1/1000", "1/128"] + ([] if unreg_mapper or unreg_funcs > 1 else ["0"])
+            return {"diag": rng.choice(diags), "pos": rng.random() < 0.5, "p_initial": rng.random() < 0.5,
+                    "check": rng.random() < 0.5}
+
+        n_conf = 24 if thorough else 6
+        for i in range(n_conf):
+            mix = rng.choice(unreg)
+            w = plain(mix, UNUSUAL_PSF and rng.random() < 0.3)
+            sw = bool(i % 2)
+            explicit = (i // 2) % 2 == 1   # control: explicit arguments, the configuration must not matter
+            fresh = (i // 4) % 2 == 1
+            c1, c2 = a_conf(w), a_conf(w)
+            if c1["diag"] == c2["diag"]:
+                c2["diag"] = "1/32"
+            c2["pos"] = not c1["pos"]
+            how = "push" if i % 3 == 2 else "item"
+            order = rng.choice([[c1, c2, c1], [None, c1, None], [c2, None, c2], [c2, c1, c2]]) if not thorough else \
+                rng.choice([[None, c1, c2, c1], [c1, c2, None], [c2, c1, c2], [c1, None, c2, None]])
+            phases = []
+            for cf in order:
+                ph = {"w": "a", "history": self._history(rng, 1, "canonical")}
+                if cf is not None:
+                    ph["conf"], ph["conf_how"] = cf, how
+                phases.append(ph)
+            args = {"diag_value": "1/100", "pos": rng.random() < 0.5, "p_initial": False} if explicit else \
+                {"diag_value": None, "pos": None, "p_initial": None}
+            yield {"tag": "conf_" + ("explicit" if explicit else "follow") + ("_fresh" if fresh else "_reused"),
+                   "kind": "reuse", "control": True, "fresh_objs": fresh, "world": w, "edit": {"kind": "none"},
+                   "settings_w": sw, **args, "entry": rng.choice([None, None, "imaging_from"]),
+                   "pre_use_w": None, "slots": [[], list(CORE), some_slots()][i % 3], "source": "same",
+                   "wt_kind": "fresh", "refresh": "assign", "objs_mode": "rebuild", "readonly": False, "derive": False,
+                   "phases": phases, "history": [a for ph in phases for a in ph["history"]]}
+        # ---- 16. R5-F: every constructor option of SettingsInversion / Preloads (introspected) crossed pairwise with
+        #          each other, the solver / diagonal / entry-point options, Preloads.use_w_tilde and every slot
+        fac = dict(self._option_levels())
+        fac.update({"pos": [None, False, True], "p_initial": [None, False, True],
+                    "diag_value": [None, "1/1000", "1/100"], "entry": [None, "imaging_from", "interface"],
+                    "slot_layout": [None, "fortran", "strided"]})
+        # The formalism that actually runs is ONE factor (which of settings.use_w_tilde / Preloads.use_w_tilde brings
+        # it about is drawn per row), so that every option value meets both formalisms — and, in the quick tier, meets
+        # every (formalism, slot set): an option that matters only with a certain slot in a certain formalism is a
+        # PAIR of this table.
+        if thorough:
+            fac["form"] = ["w", "m"]
+            for s in ALL_SLOTS:
+                fac["slot:" + s] = [False, True]
+        else:
+            # (every reference costs ~80 ms and every row has its own settings: the quick tier crosses the options
+            # with three slot SETS instead of ten single slots, which needs about half the rows)
+            fac["form_slots"] = [f + ":" + ss for f in "wm" for ss in ("non_alt", "all", "random")]
+        # (a mapper AND a linear func list AND something unregularized: the mixes that reach the most code)
+        opt_mixes = [m for m in unreg if any(c[0] == "f" for c in m)]
+        for rep in range(4 if thorough else 1):
+            mix = rng.choice(opt_mixes)
+            w = plain(mix, UNUSUAL_PSF and rng.random() < 0.5)
+            for row in pairwise_rows(rng, fac, tries=16 if not thorough else 24, cap=70):
+                if "form_slots" in row:
+                    row["form"], ss = row["form_slots"].split(":")
+                    chosen = {"core": list(CORE), "non_alt": list(NON_ALT_SLOTS), "all": list(ALL_SLOTS),
+                              "random": some_slots()}[ss]
+                    for s in ALL_SLOTS:
+                        row["slot:" + s] = s in chosen
+                row["settings_w"], row["pre_use_w"] = rng.choice(
+                    [(True, None), (True, None), (True, True)] if row["form"] == "w"
+                    else [(False, None), (False, True), (True, False), (False, False)])
+                skw = {k[4:]: v for k, v in row.items() if k.startswith("set:") and v != "<default>"}
+                if skw.get("force_edge_image_pixels_to_zeros") and sum(1 for c in mix if c[0] == "m") > 1:
+                    # outside this property: with two or more mappers AbstractInversion.reconstruction np.append-s a
+                    # ragged list of per-mapper index arrays and raises ValueError — preloads or not
+                    del skw["force_edge_image_pixels_to_zeros"]
+                if skw.get("force_edge_image_pixels_to_zeros") and "image_pixels_source_zero" not in skw:
+                    skw["image_pixels_source_zero"] = [0, 1]  # documented companion of that option
+                pkw = {k[4:]: v for k, v in row.items() if k.startswith("pre:") and v != "<default>"}
+                # options that are not in SETTINGS_LEVELS (added to the constructor later) get values from their
+                # default's type; whether those are legal is not known here
+                guessed = sorted(k for k in skw if k not in self.SETTINGS_LEVELS)
+                yield case("options_pairwise", w, row["settings_w"],
+                           [s for s in ALL_SLOTS if row["slot:" + s]], pos=row["pos"], p_initial=row["p_initial"],
+                           diag_value=row["diag_value"], entry=row["entry"], pre_use_w=row["pre_use_w"],
+                           slot_layout=row["slot_layout"], settings_kw=skw, pre_kw=pkw, guessed_options=guessed,
+                           history=self._history(rng, 2, rng.choice(["canonical", "permuted", "partial"])))
+        # ---- 17. R5-F: slots of ONE Preloads object re-assigned between the inversions of one world (a slot present
+        #          while its companion is absent, emptied, filled again)
+        companions = [("regularization_matrix", "log_det_regularization_matrix_term"),
+                      ("curvature_matrix", "curvature_matrix_mapper_diag"), ("curvature_matrix", "data_vector_mapper"),
+                      ("curvature_matrix", "regularization_matrix"), ("w_tilde", "curvature_matrix_mapper_diag"),
+                      ("operated_mapping_matrix", "linear_func_operated_mapping_matrix_dict"),
+                      ("operated_mapping_matrix", "curvature_matrix"), ("data_vector_mapper", "operated_mapping_matrix")]
+        n_re = 24 if thorough else 6
+        for i in range(n_re):
+            mix = rng.choice(with_mapper)
+            w = plain(mix, UNUSUAL_PSF and rng.random() < 0.3)
+            a, b = companions[i % len(companions)]
+            rest = [s for s in NON_ALT_SLOTS if s not in (a, b) and rng.random() < 0.4]
+            sets = [[a] + rest, [a, b] + rest, [b] + rest, rest, [a, b] + rest]
+            order = [sets[j] for j in rng.sample(range(5), 4)] + [[a, b] + rest]
+            phases = [{"w": "a", "slots": sl, "history": self._history(rng, rng.randint(1, 2), "partial")}
+                      for sl in order]
+            yield {"tag": "reassign_slots", "kind": "reuse", "world": w, "edit": {"kind": "none"},
+                   "settings_w": bool(i % 2), **{**self._opts(rng, w), "pos": False, "entry": None},
+                   "pre_use_w": None, "slots": order[0], "source": "same", "wt_kind": "fresh",
+                   "refresh": ["assign", "inplace"][i % 2], "objs_mode": "rebuild", "readonly": False,
+                   "derive": i % 4 == 3, "slot_layout": [None, None, "fortran", "tview"][i % 4],
+                   "phases": phases, "history": [x for ph in phases for x in ph["history"]]}
+        # ---- 18. R5-E: always-on mid sizes beyond 2^16 (frame pixels, mapping-matrix elements; thorough: 2^15
+        #          sub-pixels) and the direct numpy statement at other decades / with a nearly uniform noise map
+        mids = [("frame", rng.choice([65792, 66306, 66564]))]  # 256x257, 257x258, 258x258 excluded -> see _factor
+        if thorough:
+            mids += [("sub", 33000), ("frame", 131841)]
+        # quick: the mapping-matrix world (n x P > 2^16 elements, both formalisms); thorough: also frames beyond 2^16 /
+        # 2^17 pixels with the unmasked block in the BOTTOM-RIGHT corner (row-major pixel numbers beyond 2^16) and
+        # more than 2^15 sub-pixels
+        for dim, size in mids:
+            c = self._large_case(dim, size, size, rng)
+            if c is not None and thorough:
+                sp = c["spec"]
+                if dim == "frame":
+                    sp["block"][0] = sp["h"] - sp["block"][0] - sp["block"][2]
+                    sp["block"][1] = sp["w"] - sp["block"][1] - sp["block"][3]
+                yield {**{k: v for k, v in c.items() if k != "_cost"}, "tag": f"mid_{dim}"}
+        c = self._large_case("params", 132 if not thorough else 160, 0, rng)
+        if c is not None:
+            c["spec"]["n"] = 520 if not thorough else 640  # n x P > 2^16 elements in the mapping matrices
+            need = c["spec"]["n"] * 11 // 10 + 12
+            bw = c["spec"]["block"][3]
+            c["spec"]["block"][2] = -(-need // bw)
+            c["spec"]["h"] = max(c["spec"]["h"], c["spec"]["block"][0] * 2 + c["spec"]["block"][2] + 1)
+            yield {**{k: v for k, v in c.items() if k != "_cost"}, "tag": "mid_elements", "hint": c["size"]}
+        for k, near_u in ([(-40, False), (35, True), (0, True), (-8, False)]
+                          + ([(-25, True), (45, False), (12, False), (-150, False), (150, False)] if thorough else [])):
+            dim, size = rng.choice([("pixels", rng.randint(90, 150)), ("params", rng.randint(30, 60)),
+                                    ("sub", rng.randint(150, 300)), ("objs", rng.randint(3, 5))])
+            if k == -8:  # many regularized parameters at a moderately larger decade of H: a determinant overflows
+                dim, size = "params", rng.randint(70, 90)
+            c = self._large_case(dim, size, size, rng)
+            if c is None:
+                continue
+            c = {k_: v for k_, v in c.items() if k_ != "_cost"}
+            c["spec"]["scale_k"] = k
+            c["spec"]["near_uniform_noise"] = near_u
+            for o in c["spec"]["objs"]:
+                if o.get("reg") is not None:
+                    # (capped, and no regularization at all where F is scaled up beyond 2^50: see REG_CAP)
+                    o["reg"] = None if -2 * k > 50 else str(Fraction(o["reg"]) * _pow2(min(-k, REG_CAP)))
+            c["diag_value"] = str(Fraction(1, 100) * _pow2(-2 * k))
+            c["rel"] = True
+            c["conf"] = NOCHECK
+            yield {**c, "tag": "direct_decade" + ("_near_uniform" if near_u else "")}
+        # ---- 19. (last, so that every case above keeps its draw of the seed) a slot present while its COMPANION is absent,
+        #          across two worlds: H preloaded but not log det H (and F but not H), the regularization coefficient
+        #          changes, the slot is re-assigned — whatever an inversion left behind on the shared Preloads object for
+        #          the absent companion is stale now (seeded change C08-r6m2)
+        for sw in (False, True):
+            mix = rng.choice([["m"], ["m", "f"], ["m", "fr"]])
+            w = plain(mix)
+            edit = self._edit(rng, w, "reg", False)
+            present = rng.choice([["regularization_matrix"], ["regularization_matrix", "curvature_matrix"],
+                                  ["regularization_matrix", "operated_mapping_matrix"]])
+            phases = [{"w": x, "history": [list(ACCESSES)]} for x in ("a", "b", "a")]
+            yield {"tag": "reuse_companion_absent", "kind": "reuse", "world": w, "edit": edit, "settings_w": sw,
+                   "diag_value": None, "pos": False, "p_initial": None, "entry": None, "pre_use_w": None,
+                   "slots": present, "source": "same", "wt_kind": "fresh", "refresh": "assign", "objs_mode": "rebuild",
+                   "readonly": False, "derive": False, "phases": phases,
+                   "history": [a for ph in phases for a in ph["history"]]}
+
     # -- running a reuse history ---------------------------------------------------------------------
     def _fresh_w_tilde(self, wd, foreign=False):
         from autoarray.dataset.imaging.w_tilde import WTildeImaging
@@ -1226,6 +2037,35 @@ class C15(PropertyCheck):
             return type(e).__name__
         return "n/a"
 
+    # reads of an inversion whose returned objects the caller of an ownership history scribbles over, beyond the ten
+    # observed ones (dict- / list-valued and derived quantities; every one hands out arrays)
+    OWN_READS = ["mapping_matrix", "operated_mapping_matrix_list", "linear_func_operated_mapping_matrix_dict",
+                 "mapper_operated_mapping_matrix_dict", "data_linear_func_matrix_dict",
+                 "regularization_matrix_reduced", "curvature_reg_matrix_reduced", "reconstruction_reduced",
+                 "reconstruction_dict", "mapped_reconstructed_data_dict", "mapped_reconstructed_image"]
+
+    @staticmethod
+    def _own_arrays(wd, vals, invs):
+        """every numpy buffer the API returned to, or accepted from, the caller in one round of an ownership history"""
+        arrs = list(wd.inputs)
+        ds = wd.ds
+        for nm in ("data", "noise_map", "psf", "convolver", "w_tilde", "grids", "noise_covariance_matrix"):
+            if nm in vars(ds):
+                arrs += arrays_behind(vars(ds)[nm], 2)
+        arrs += arrays_behind(wd.mask, 1)
+        for o in wd.objs:
+            arrs += arrays_behind({k: v for k, v in vars(o).items() if k not in ("regularization",)}, 2)
+        for inv in invs:
+            for nm in ACCESSES + C15.OWN_READS:
+                try:
+                    arrs += arrays_behind(getattr(inv, nm), 0)
+                except Exception:
+                    pass  # several are documented to raise for some mixes
+            arrs += arrays_behind({k: v for k, v in vars(inv).items()
+                                   if k not in ("dataset", "linear_obj_list", "settings", "preloads", "run_time_dict")}, 1)
+        arrs += arrays_behind(vals, 1)
+        return arrs
+
     def _run_reuse(self, aa, case):
         from autoarray import exc
 
@@ -1233,15 +2073,32 @@ class C15(PropertyCheck):
         wcs = {x: world_cfg(specs[x]) for x in "ab"}
         eff_w = factory_choice(wcs["a"], case["settings_w"], None)
         sub = {x: {**case, "world": specs[x]} for x in "ab"}
-        refs = {x: self._reference(sub[x], eff_w) for x in "ab"}
-        if refs["a"] is None or refs["b"] is None:
-            raise Skip("a preload-free reference inversion raises InversionException")
+        own = bool(case.get("own"))          # R5-B: fresh equal inputs every round, everything scribbled over after it
+        fresh_objs = own or bool(case.get("fresh_objs"))
+        refs_mem = {}
+
+        def refs_for(x, ph):
+            conf = ph.get("conf") or None
+            k = (x, json.dumps(conf or {}, sort_keys=True))
+            if k not in refs_mem:
+                with conf_in_force(conf, ph.get("conf_how")):
+                    refs_mem[k] = self._reference({**sub[x], "_conf": conf} if conf else sub[x], eff_w)
+            return refs_mem[k]
+
+        for x in "ab":  # as before round 5: both worlds must be invertible under the pinned configuration
+            if refs_for(x, {}) is None:
+                raise Skip("a preload-free reference inversion raises InversionException")
+        for ph in case["phases"]:
+            if refs_for(ph["w"], ph) is None:
+                raise Skip("a preload-free reference inversion raises InversionException")
         st = settings_of(aa, case["settings_w"], case)  # ONE settings object for the whole history
         other_st = None if wcs["a"]["all_func_lists"] else settings_of(aa, not eff_w, case)
         worlds = {}
         same = case["objs_mode"] == "same"
 
         def world_for(x):
+            if fresh_objs:
+                return World(aa, specs[x])
             if same:
                 if "w" not in worlds:
                     worlds["w"], worlds["cur"] = World(aa, specs[x]), x
@@ -1254,14 +2111,15 @@ class C15(PropertyCheck):
             return worlds[x]
 
         ro = bool(case.get("readonly"))
+        lay = case.get("slot_layout")
 
-        def target(x, wd):
+        def target(x, slots, R):
             out = {}
-            for s in case["slots"]:
+            for s in slots:
                 if s == "w_tilde":
                     out[s] = self._fresh_w_tilde(World(aa, specs[x]))
                     continue
-                v = refs[x]["slots"].get(s)
+                v = R["slots"].get(s)
                 if v is not None:
                     out[s] = v
             return out
@@ -1271,98 +2129,142 @@ class C15(PropertyCheck):
         phases_obs = []
         for ph in case["phases"]:
             x = ph["w"]
-            wd = world_for(x)
-            tgt = target(x, wd)
-            setter_errors = []
-            if pre is None:
-                pre = aa.Preloads(**{s: owned_copy(s, v, ro) for s, v in tgt.items()})
-            else:
-                if case.get("derive"):
-                    # objects derived by copying carry whatever private state the originals had
-                    pre = _copy.copy(pre)
-                    st = _copy.deepcopy(st)
-                changed = [s for s in ALL_SLOTS
-                           if (s in tgt or s in cur_target) and not same_value(tgt.get(s), cur_target.get(s))]
-                how = case["refresh"]
-                if how == "setter" and changed:
-                    called = []
-                    fits = self._fits_of(aa, case, specs[x])
-                    self._keep_alive = fits
-                    for s in changed:
-                        m = SETTER_OF.get(s)
-                        if m and m not in called:
-                            called.append(m)
-                            try:
-                                getattr(pre, m)(fit_0=fits[0], fit_1=fits[1])
-                            except (IndexError, NotImplementedError) as e:
-                                setter_errors.append(f"{m}: {type(e).__name__}")
-                    for s in changed:  # what no setter refreshed (w_tilde; a slot its setter left alone)
-                        cur = getattr(pre, s)
-                        if cur is not None and same_value(cur, cur_target.get(s)) and not same_value(cur, tgt.get(s)):
-                            setattr(pre, s, owned_copy(s, tgt.get(s)))
-                elif how == "inplace":
-                    for s in changed:
-                        cur, new = getattr(pre, s), tgt.get(s)
-                        if isinstance(cur, np.ndarray) and new is not None and cur.shape == np.shape(new):
-                            cur[...] = new  # the caller edits its own array in place
-                        elif isinstance(cur, dict) and isinstance(new, list) and len(cur) == len(new) and all(
-                                cur[i].shape == np.shape(new[i]) for i in range(len(new))):
-                            for i in range(len(new)):
-                                cur[i][...] = new[i]
-                        else:
-                            setattr(pre, s, owned_copy(s, new))
+            R = refs_for(x, ph)
+            with conf_in_force(ph.get("conf"), ph.get("conf_how")):
+                wd = world_for(x)
+                tgt = target(x, ph.get("slots", case["slots"]), R)
+                setter_errors = []
+                if own:
+                    pre, cur_target = None, {}
+                if fresh_objs:
+                    st = settings_of(aa, case["settings_w"], case)
+                if pre is None:
+                    pre = aa.Preloads(**{s: owned_copy(s, v, ro, lay) for s, v in tgt.items()},
+                                      **(case.get("pre_kw") or {}))
                 else:
-                    for s in changed:
-                        setattr(pre, s, owned_copy(s, tgt.get(s), ro))
-            cur_target = tgt
-            vals = {s: getattr(pre, s) for s in ALL_SLOTS if getattr(pre, s, None) is not None}
-            fp0 = {s: fingerprint(s, v) for s, v in vals.items() if s in ARRAY_SLOTS}
-            heap, pre_refs = [], {}
-            for s in ALL_SLOTS:
-                if s not in vals:
-                    continue
-                if s == "log_det_regularization_matrix_term":
-                    pre_refs[s] = fbits(vals[s])
-                else:
-                    pre_refs[s] = len(heap)
-                    heap.append(slot_cell(s, vals[s]))
-            fault = None
-            if ph.get("fault"):  # after the fingerprints: a failed operation must not touch the preloads either
-                fault = self._fault(aa, ph["fault"], case, wd, st, pre, vals, eff_w, wcs[x]["dim"])
-            steps, classes, decoys = [], [], []
-            for accs in ph["history"]:
-                try:
-                    inv = make_inversion(aa, wd, case, st, preloads=pre)
-                    classes.append(type(inv).__name__)
-                    if ph.get("decoy"):
-                        decoys = self._decoy_reads(aa, ph["decoy"], inv, pre, wd, case, other_st)
-                    out = [read(inv, a) for a in accs]
-                except exc.InversionException:
-                    out = "inversion_exception"
-                changed_fp = sorted(s for s in fp0 if fingerprint(s, vals[s]) != fp0[s])
-                steps.append({"out": out, "changed": changed_fp})
-            phases_obs.append({
-                "w": x, "filled": sorted(vals), "pre_use_w": pre.use_w_tilde, "classes": sorted(set(classes)),
-                "steps": steps, "setter_errors": setter_errors, "fault": fault, "decoys": decoys,
-                "base": refs[x]["base"],
-                "_model": {"heap": heap, "preloads": pre_refs, "coarse": refs[x]["coarse"],
-                           "tables": self._merged_tables({eff_w: refs[x]})},
-            })
+                    if case.get("derive"):
+                        # objects derived by copying carry whatever private state the originals had
+                        pre = _copy.copy(pre)
+                        st = _copy.deepcopy(st)
+                    changed = [s for s in ALL_SLOTS
+                               if (s in tgt or s in cur_target) and not same_value(tgt.get(s), cur_target.get(s))]
+                    how = case["refresh"]
+                    if how == "setter" and changed:
+                        called = []
+                        fits = self._fits_of(aa, case, specs[x])
+                        self._keep_alive = fits
+                        for s in changed:
+                            m = SETTER_OF.get(s)
+                            if m and m not in called:
+                                called.append(m)
+                                try:
+                                    getattr(pre, m)(fit_0=fits[0], fit_1=fits[1])
+                                except (IndexError, NotImplementedError) as e:
+                                    setter_errors.append(f"{m}: {type(e).__name__}")
+                        for s in changed:  # what no setter refreshed (w_tilde; a slot its setter left alone)
+                            cur = getattr(pre, s)
+                            if cur is not None and same_value(cur, cur_target.get(s)) and not same_value(cur, tgt.get(s)):
+                                setattr(pre, s, owned_copy(s, tgt.get(s)))
+                    elif how == "inplace":
+                        for s in changed:
+                            cur, new = getattr(pre, s), tgt.get(s)
+                            if isinstance(cur, np.ndarray) and new is not None and cur.shape == np.shape(new):
+                                cur[...] = new  # the caller edits its own array in place
+                            elif isinstance(cur, dict) and isinstance(new, list) and len(cur) == len(new) and all(
+                                    cur[i].shape == np.shape(new[i]) for i in range(len(new))):
+                                for i in range(len(new)):
+                                    cur[i][...] = new[i]
+                            else:
+                                setattr(pre, s, owned_copy(s, new))
+                    else:
+                        for s in changed:
+                            setattr(pre, s, owned_copy(s, tgt.get(s), ro, lay))
+                cur_target = tgt
+                vals = {s: getattr(pre, s) for s in ALL_SLOTS if getattr(pre, s, None) is not None}
+                fp0 = {s: fingerprint(s, v) for s, v in vals.items() if s in ARRAY_SLOTS}
+                heap, pre_refs = [], {}
+                for s in ALL_SLOTS:
+                    if s not in vals:
+                        continue
+                    if s == "log_det_regularization_matrix_term":
+                        pre_refs[s] = fbits(vals[s])
+                    else:
+                        pre_refs[s] = len(heap)
+                        heap.append(slot_cell(s, vals[s]))
+                fault = None
+                if ph.get("fault"):  # after the fingerprints: a failed operation must not touch the preloads either
+                    fault = self._fault(aa, ph["fault"], case, wd, st, pre, vals, eff_w, wcs[x]["dim"])
+                steps, classes, decoys, invs = [], [], [], []
+                for accs in ph["history"]:
+                    try:
+                        inv = make_inversion(aa, wd, case, st, preloads=pre)
+                        invs.append(inv)
+                        classes.append(type(inv).__name__)
+                        if ph.get("decoy"):
+                            decoys = self._decoy_reads(aa, ph["decoy"], inv, pre, wd, case, other_st)
+                        out = [read(inv, a) for a in accs]
+                    except exc.InversionException:
+                        out = "inversion_exception"
+                    changed_fp = sorted(s for s in fp0 if fingerprint(s, vals[s]) != fp0[s])
+                    steps.append({"out": out, "changed": changed_fp})
+                po = {
+                    "w": x, "filled": sorted(vals), "pre_use_w": pre.use_w_tilde, "classes": sorted(set(classes)),
+                    "steps": steps, "setter_errors": setter_errors, "fault": fault, "decoys": decoys,
+                    "base": R["base"],
+                    "_model": {"heap": heap, "preloads": pre_refs, "coarse": R["coarse"],
+                               "tables": self._merged_tables({eff_w: R})},
+                }
+                if ph.get("conf") is not None or case.get("control"):
+                    # R5-D: the values the docstrings promise are in force now; the model gets the diagonal value
+                    # from here (never through the code under test), and the same values passed as EXPLICIT
+                    # arguments to a preload-free inversion of freshly built objects are the control
+                    eff = effective_settings(case, ph.get("conf"))
+                    po["eff"] = eff
+                    po["_model"]["diag_bits"] = fbits(eff["diag"])
+                    try:
+                        wc_ = World(aa, specs[x])
+                        ctl = aa.Inversion(dataset=wc_.ds, linear_obj_list=wc_.objs,
+                                           settings=explicit_settings_of(aa, case["settings_w"], case, eff))
+                        po["control"] = dict(zip(ACCESSES, read_all(ctl, ACCESSES)))
+                    except exc.InversionException:
+                        po["control"] = "inversion_exception"
+                if own:
+                    # a preload-free inversion of this round's (fresh, equal) inputs, then the caller edits in place
+                    # every array it was handed or had handed over in this round
+                    try:
+                        fr = make_inversion(aa, wd, case, st)
+                        invs.append(fr)
+                        po["fresh"] = dict(zip(ACCESSES, read_all(fr, ACCESSES)))
+                    except exc.InversionException:
+                        po["fresh"] = "inversion_exception"
+                    po["scribbled"] = scribble(self._own_arrays(wd, vals, invs), ph.get("scribble", "nan"))
+                phases_obs.append(po)
         return {"kind": "reuse", "eff_w": eff_w, "pre_use_w": None, "phases": phases_obs,
                 "filled": sorted({s for p in phases_obs for s in p["filled"]}),
                 "steps": [s for p in phases_obs for s in p["steps"]]}
 
     def _phase_case(self, case, ph, x):
         spec = case["world"] if x == "a" else apply_edit(case["world"], case["edit"])
-        return {**case, "world": spec, "history": ph["history"]}
+        out = {**case, "world": spec, "history": ph["history"]}
+        if "slots" in ph:
+            out["slots"] = ph["slots"]
+        return out
 
     def _oracle_reuse(self, case, obs):
         eff_w = obs["eff_w"]
         key = "w" if eff_w else "m"
         want_cls = "InversionImagingWTilde" if eff_w else "InversionImagingMapping"
+        ctl_seen = {}
         for k, (ph, po) in enumerate(zip(case["phases"], obs["phases"])):
+            conf_txt = ""
+            if ph.get("conf") is not None:
+                conf_txt = (f", configuration in force general.inversion.{conf_values(ph['conf'])} (set by "
+                            f"{ph.get('conf_how') or 'item assignment'}), settings arguments "
+                            f"diag={case.get('diag_value')} pos={case.get('pos')} p_initial={case.get('p_initial')}")
             where = (f"reuse history, phase {k + 1}/{len(case['phases'])} (world {po['w'].upper()}, "
                      f"change={case['edit']['kind']}, refresh={case['refresh']}, objects={case['objs_mode']}"
+                     f"{', fresh equal inputs every round, all arrays of the previous round edited in place' if case.get('own') else ''}"
+                     f"{', slots ' + str(ph['slots']) if 'slots' in ph else ''}{conf_txt}"
                      f"{', Preloads/settings copied' if case.get('derive') else ''}"
                      f"{', decoy reads first' if ph.get('decoy') else ''}"
                      f"{', after a failed operation (' + ph['fault'] + ')' if ph.get('fault') else ''}): ")
@@ -1370,11 +2272,60 @@ class C15(PropertyCheck):
                 return False, where + f"factory built {po['classes']}, expected {want_cls}"
             pc = self._phase_case(case, ph, po["w"])
             exact = self._exact(pc, po)
+            pos_now = po["eff"]["pos"] if "eff" in po else pos_eff(case)
             ok, detail = self._oracle_steps(pc, po, po["base"], exact, key,
-                                            (not pos_eff(case)) and self._well_conditioned(po["base"]))
+                                            (not pos_now) and self._well_conditioned(po["base"]))
             if not ok:
                 return False, where + "every filled slot holds the value computed from this phase's identical " \
                                       "dataset and linear objects, yet " + detail
+            if "fresh" in po:
+                # R5-B: a preload-free inversion of freshly built equal inputs, after the caller has edited in place
+                # every array earlier rounds handed out or were given, reports the same as the very first one
+                if isinstance(po["fresh"], str):
+                    return False, where + f"the preload-free inversion of fresh equal inputs raised {po['fresh']}"
+                for a in ACCESSES:
+                    if po["fresh"][a] != po["base"][a]:
+                        _, d = self._close(po["fresh"][a], po["base"][a], 0.0)
+                        return False, where + (f"(b) {a} of a preload-free inversion of fresh equal inputs differs from "
+                                               f"the first computation (max |Δ|={d:.3e}): something handed out earlier "
+                                               f"is shared with later objects")
+            if "control" in po:
+                # R5-D: the result follows the configuration value in force at call time = the same values passed
+                # explicitly; and explicit arguments are immune to the configuration
+                ctl = po["control"]
+                if isinstance(ctl, str):
+                    return False, where + f"the control inversion with explicit settings {po['eff']} raised {ctl}"
+                for a in ACCESSES:
+                    if ctl[a] != po["base"][a]:
+                        _, d = self._close(ctl[a], po["base"][a], 0.0)
+                        return False, where + (f"(config) {a} with the settings defaults taken from the configuration "
+                                               f"differs from passing the values in force {po['eff']} explicitly "
+                                               f"(max |Δ|={d:.3e})")
+                # an independent statement of what the diagonal value does: the unregularized diagonal entries of
+                # two phases of the same world differ by the difference of the values in force, nothing else moves
+                wcfg = world_cfg(pc["world"])
+                F = floats_of(po["base"]["curvature_matrix"])
+                P = wcfg["dim"]
+                if F.size == P * P:
+                    prev = ctl_seen.get(po["w"])
+                    if prev is not None:
+                        F0, d0 = prev
+                        dv = po["eff"]["diag"] - d0
+                        D = (F - F0).reshape(P, P)
+                        want = np.zeros((P, P))
+                        for i in wcfg["no_reg_idx"]:
+                            want[i, i] = dv
+                        tol = 1e-12 * max(1.0, float(np.max(np.abs(F))), float(np.max(np.abs(F0))))
+                        if float(np.max(np.abs(D - want))) > tol:
+                            return False, where + (f"(config) curvature_matrix does not follow "
+                                                   f"no_regularization_add_to_curvature_diag_value: between two phases "
+                                                   f"the value in force moved by {dv:.6g} but the matrix moved by "
+                                                   f"max |Δ - expected|={float(np.max(np.abs(D - want))):.3e}")
+                    ctl_seen.setdefault(po["w"], (F, po["eff"]["diag"]))
+                s = floats_of(po["base"]["reconstruction"])
+                if po["eff"]["pos"] and s.size and float(np.min(s)) < -1e-9 * max(1.0, float(np.max(np.abs(s)))):
+                    return False, where + (f"(config) use_positive_only_solver is in force but the reconstruction has "
+                                           f"a negative entry {float(np.min(s)):.3e}")
         return True, ""
 
     # ================================================================== round 4: large worlds
@@ -1564,8 +2515,13 @@ class C15(PropertyCheck):
                 fo["err"] = "inversion_exception"
                 continue
 
-            def chk(name, err, scale, tol=1e-9):
-                fo["checks"].append([name, float(err), float(tol * max(1.0, scale))])
+            rel = bool(case.get("rel"))
+
+            def chk(name, err, scale, tol=1e-9, additive=False):
+                # worlds at another decade (`rel`): the tolerance is relative to the natural scale alone (not for
+                # the additive log-determinant)
+                bound = scale if (rel and not additive and scale > 0.0) else max(1.0, scale)
+                fo["checks"].append([name, float(err), float(tol * bound)])
 
             Hm = v["regularization_matrix"].reshape(P, P) if v["regularization_matrix"].size == P * P \
                 else np.zeros((P, P))
@@ -1585,13 +2541,23 @@ class C15(PropertyCheck):
                 Hr, sr = Hm[np.ix_(keep, keep)], s[keep]
                 chk("regularization_term = s^T H s", abs(float(v["regularization_term"]) - float(sr @ Hr @ sr)),
                     float(np.abs(sr) @ np.abs(Hr) @ np.abs(sr)))
+                if len(keep) <= 400 and rel:
+                    # (decade worlds only, so that the ordinary direct cases keep their round-4 meaning)
+                    evh = np.linalg.eigvalsh((Hr + Hr.T) / 2.0)
+                    if evh[0] > 0 and evh[-1] / evh[0] < 1.0e15:
+                        # H = c^2 L + 1e-8 is nearly singular by construction (L is a graph Laplacian): the smallest
+                        # eigenvalue, hence the log-determinant, is only known to ~eps * cond
+                        ldh = float(np.sum(np.log(evh)))
+                        chk("log_det_regularization_matrix_term = log det H",
+                            abs(float(v["log_det_regularization_matrix_term"]) - ldh), abs(ldh),
+                            tol=1e-9 + 64 * 2.3e-16 * float(evh[-1] / evh[0]) * len(keep), additive=True)
                 if len(keep) <= 400:
                     FHr = FH[np.ix_(keep, keep)]
                     ev = np.linalg.eigvalsh((FHr + FHr.T) / 2.0)
                     if ev[0] > 0 and ev[-1] / ev[0] < 1.0e4:
                         ld = float(np.sum(np.log(ev)))
                         chk("log_det_curvature_reg_matrix_term = log det (F + H)",
-                            abs(float(v["log_det_curvature_reg_matrix_term"]) - ld), abs(ld))
+                            abs(float(v["log_det_curvature_reg_matrix_term"]) - ld), abs(ld), additive=True)
             # preload transparency at this size: slots taken from the fresh reads, shared by successive inversions
             vals = {}
             for sname in case["slots"]:
@@ -1659,8 +2625,13 @@ class C15(PropertyCheck):
         (None when that formalism is not available or the inversion fails)."""
         import json
 
+        # a world that only differs in HOW equal values are handed over (memory layout, alternative constructors)
+        # is judged against the reference of its plain twin
+        if any(case["world"].get(k) for k in VARIANT_KEYS):
+            case = {**case, "world": plain_world(case["world"])}
         key = (json.dumps(case["world"], sort_keys=True), w_form, case["pos"], case.get("diag_value"),
-               case.get("p_initial"))
+               case.get("p_initial"), json.dumps(case.get("settings_kw") or {}, sort_keys=True),
+               json.dumps(case.get("_conf") or {}, sort_keys=True))
         if key in self._ref_cache:
             return self._ref_cache[key]
         res = self._reference_uncached(case, w_form)
@@ -1832,12 +2803,13 @@ class C15(PropertyCheck):
                     vals[s] = wd.ds.w_tilde
                 else:
                     noise_native = np.array(wd.ds.noise_map.native)
-                    if case["wt_kind"] == "foreign":
-                        noise_native = noise_native * 2.0
+                    f = foreign_factor(case)
+                    if f != 1.0:
+                        noise_native = noise_native * f
                     cp, ix, ln = inversion_imaging_util.w_tilde_curvature_preload_imaging_from(
                         noise_map_native=noise_native, kernel_native=np.array(wd.ds.psf.native),
                         native_index_for_slim_index=np.array(wd.ds.mask.derive_indexes.native_for_slim))
-                    nv = wd.ds.noise_map[0] * (2.0 if case["wt_kind"] == "foreign" else 1.0)
+                    nv = wd.ds.noise_map[0] * f
                     vals[s] = WTildeImaging(curvature_preload=cp, indexes=ix.astype("int"),
                                             lengths=ln.astype("int"), noise_map_value=nv)
                 continue
@@ -1847,16 +2819,19 @@ class C15(PropertyCheck):
             v = src["slots"].get(s)
             if v is None:
                 continue
+            lay = case.get("slot_layout")
             if isinstance(v, list):
                 # dict slots: keyed by foreign objects, re-keyed by position in the inversion
-                vals[s] = {i: np.array(a, copy=True) for i, a in enumerate(v)}
+                vals[s] = {i: layout_of(np.array(a, copy=True), lay) for i, a in enumerate(v)}
             elif isinstance(v, float):
                 vals[s] = v
             else:
-                vals[s] = np.array(v, copy=True)
+                vals[s] = layout_of(np.array(v, copy=True), lay)
         kwargs = dict(vals)
         if case["pre_use_w"] is not None:
             kwargs["use_w_tilde"] = case["pre_use_w"]
+        # constructor arguments of Preloads that no imaging inversion consults (set, possibly falsy): R5-F
+        kwargs.update(case.get("pre_kw") or {})
         return aa.Preloads(**kwargs), vals, []
 
     def _preloads_via_setters(self, aa, case):
@@ -1887,6 +2862,11 @@ class C15(PropertyCheck):
         aa = load_autoarray()
         from autoarray import exc
 
+        if case.get("conf") and not case.get("_conf"):
+            # a case that runs as a whole under other values of general.inversion.* (the decade streams switch the
+            # library's check_reconstruction — an ABSOLUTE np.allclose test on the solution, documented — off)
+            with conf_in_force(case["conf"], case.get("conf_how")):
+                return self.run_impl({**case, "_conf": case["conf"]})
         if case.get("kind") == "relocated_grid":
             return self._run_relocated(aa, case)
         if case.get("kind") == "large":
@@ -1895,8 +2875,18 @@ class C15(PropertyCheck):
             return self._run_reuse(aa, case)
         w = case["world"]
         wc = world_cfg(w)
-        refs = {False: self._reference(case, False)}
-        refs[True] = self._reference(case, True) if not wc["all_func_lists"] else None
+        try:
+            refs = {False: self._reference(case, False)}
+            refs[True] = self._reference(case, True) if not wc["all_func_lists"] else None
+        except Skip:
+            raise
+        except Exception as e:
+            if case.get("guessed_options"):
+                # a constructor option this file does not know, set to a value guessed from its default's type, and
+                # the PRELOAD-FREE inversion already raises: the value is not legal — nothing to judge
+                raise Skip(f"guessed value of option(s) {case['guessed_options']} is not accepted "
+                           f"({type(e).__name__})")
+            raise
         base = {("w" if k else "m"): (v["base"] if v else None) for k, v in refs.items()}
         if refs[False] is None and refs[True] is None:
             raise Skip("preload-free reference inversions raise InversionException")
@@ -2060,14 +3050,19 @@ class C15(PropertyCheck):
         wc = world_cfg(case["world"])
         cfg = {k: v for k, v in wc.items() if not k.startswith("_")}
         cfg["settings_use_w_tilde"] = case["settings_w"]
-        aa = load_autoarray()
-        st = settings_of(aa, case["settings_w"], case)
-        cfg["diag_value"] = fbits(st.no_regularization_add_to_curvature_diag_value)
+        if mdl.get("diag_bits") is not None:
+            # configuration histories: the value the docstring of SettingsInversion promises for the configuration
+            # that was in force when the phase ran, worked out by the harness (effective_settings)
+            cfg["diag_value"] = mdl["diag_bits"]
+        else:
+            aa = load_autoarray()
+            st = settings_of(aa, case["settings_w"], case)
+            cfg["diag_value"] = fbits(st.no_regularization_add_to_curvature_diag_value)
         pre = dict(mdl["preloads"])
         if obs["pre_use_w"] is not None:
             pre["use_w_tilde"] = bool(obs["pre_use_w"])
         ext = dict(mdl["tables"])
-        if case["wt_kind"] == "foreign" and "w_tilde" in mdl["preloads"]:
+        if is_foreign(case) and "w_tilde" in mdl["preloads"]:
             ext["wt_check"] = list(ext.get("wt_check", [])) + [[mdl["heap"][mdl["preloads"]["w_tilde"]], False]]
         return {"op": "c15.history", "cfg": cfg, "policy": POLICY, "ext": ext, "heap": mdl["heap"],
                 "preloads": pre, "history": case["history"]}
@@ -2118,6 +3113,15 @@ class C15(PropertyCheck):
                     if exact_case:
                         return f"step {i} {a}: model has no sample for the kernel arguments reached (Ext table miss)"
                     continue
+                if vi != vm and case.get("slot_layout") in SOFT_LAYOUTS:
+                    # preloaded arrays in another memory order: rounding-level agreement (see SOFT_LAYOUTS); what lies
+                    # behind the solver is judged by the oracle where the conditioning allows
+                    if a in BEHIND_SOLVER or a in BEHIND_CHOLESKY:
+                        continue
+                    ok, _d = self._close(vi, vm, rel=self._rel(case, a))
+                    if ok:
+                        cmp.tolerant += 1
+                        continue
                 if vi != vm:
                     fi, fm = floats_of(vi), floats_of(vm)
                     if len(fi) == len(fm):
@@ -2131,18 +3135,38 @@ class C15(PropertyCheck):
     @staticmethod
     def _exact(case, obs):
         return case["source"] == "same" and not (set(obs["filled"]) & ALT_ROUTE) \
-            and case["wt_kind"] != "foreign"
+            and not is_foreign(case) and case.get("slot_layout") not in SOFT_LAYOUTS
 
     @staticmethod
-    def _close(a, b, rtol=1e-9):
+    def _close(a, b, rtol=1e-9, rel=False):
+        """|a - b| <= rtol * max(1, max|b|); with `rel` (worlds scaled by 2^k, R5-A) relative to max|b| alone, so
+        that the comparison means the same at every decade"""
         fa, fb = floats_of(a), floats_of(b)
         if fa.shape != fb.shape:
             return False, float("inf")
         if fa.size == 0:
             return True, 0.0
-        scale = max(1.0, float(np.max(np.abs(fb))))
+        top = float(np.max(np.abs(fb)))
+        scale = top if rel else max(1.0, top)
         d = float(np.max(np.abs(fa - fb)))
+        if not np.isfinite(d):
+            # the same non-finite pattern on both sides (overflow at the extreme decades) is agreement
+            return bool(np.array_equal(fa, fb, equal_nan=True)), d
         return d <= rtol * scale, d
+
+    @staticmethod
+    def _no_scale(case, a):
+        """s^T H s is computed as s . (H s): its rounding error scales with |s|^T |H| |s|, which can exceed the value
+        itself by many orders for a smooth s, and that natural scale is not among the ten reads.  At the unit decade
+        the floor of 1 in the tolerance covers it; in a world at another decade (`rel`) no honest tolerance can be
+        formed here, so the TOLERANT comparisons leave it out (the exact ones and the direct statement keep it)."""
+        return bool(case.get("rel")) and a == "regularization_term"
+
+    @staticmethod
+    def _rel(case, a):
+        # log-determinants are additive quantities: their magnitude says nothing about the world's scale
+        return bool(case.get("rel")) and a not in ("log_det_curvature_reg_matrix_term",
+                                                   "log_det_regularization_matrix_term")
 
     def _well_conditioned(self, base):
         FH = floats_of(base["curvature_reg_matrix"])
@@ -2174,7 +3198,7 @@ class C15(PropertyCheck):
             return False, (f"(c) the preload-free {bad} inversion raises InversionException while the other "
                            f"formalism returns values for the same inputs")
         want_cls = "InversionImagingWTilde" if eff_w else "InversionImagingMapping"
-        if case["wt_kind"] == "foreign" and eff_w and "w_tilde" in obs["filled"]:
+        if is_foreign(case) and eff_w and "w_tilde" in obs["filled"]:
             # not "computed from an identical dataset": the property is silent; the guard is expected
             return True, "foreign w_tilde"
         if obs["classes"] and obs["classes"] != [want_cls]:
@@ -2192,7 +3216,9 @@ class C15(PropertyCheck):
                     continue
                 if (a in BEHIND_SOLVER or a in BEHIND_CHOLESKY) and not solver_ok:
                     continue
-                ok, d = self._close(bw[a], bm[a])
+                if self._no_scale(case, a):
+                    continue
+                ok, d = self._close(bw[a], bm[a], rel=self._rel(case, a))
                 if not ok:
                     return False, f"(c) {a} differs between the two formalisms by {d:.3e} (> 1e-9 relative)"
         return True, ""
@@ -2216,7 +3242,9 @@ class C15(PropertyCheck):
                 else:
                     if (a in BEHIND_SOLVER or a in BEHIND_CHOLESKY) and not tolerant_solver_ok:
                         continue
-                    ok, d = self._close(v, b)
+                    if self._no_scale(case, a):
+                        continue
+                    ok, d = self._close(v, b, rel=self._rel(case, a))
                     if not ok:
                         return False, (f"(a) {a} with preloads {obs['filled']} (formalism {key}, inversion {i + 1}) "
                                        f"differs from the preload-free value by {d:.3e} (> 1e-9 relative)")
@@ -2255,11 +3283,24 @@ class C15(PropertyCheck):
         def with_phases(p):
             return {**case, "phases": p, "history": [a for ph in p for a in ph["history"]]}
 
+        if case.get("slot_layout"):
+            yield {**case, "slot_layout": None}
         for i, ph in enumerate(phs):
-            for key in ("fault", "decoy"):
-                if ph.get(key):
+            for key in ("fault", "decoy") if (case.get("own") or case.get("control")) else \
+                    ("fault", "decoy", "conf", "slots"):
+                if ph.get(key) is not None:
                     yield with_phases([({k: v for k, v in q.items() if k != key} if j == i else q)
                                        for j, q in enumerate(phs)])
+        if case.get("own") or case.get("control"):
+            # an ownership / configuration history fails because of state that outlives the objects (a process-wide memo,
+            # a default cached in a class attribute): inside the failing process every shorter candidate "fails" too
+            # (the shared state is already spoilt), but would not reproduce in a fresh process.  The rounds / phases
+            # stay as they are; only what is independent of them is minimised.
+            for s in case["slots"]:
+                yield {**case, "slots": [x for x in case["slots"] if x != s]}
+            if case.get("entry"):
+                yield {**case, "entry": None}
+            return
         if len(phs) > 1:
             yield with_phases(phs[:-1])
             yield with_phases(phs[1:])
@@ -2323,6 +3364,15 @@ class C15(PropertyCheck):
         if case.get("entry"):
             yield {**case, "entry": None}
         w = case["world"]
+        # round 5/6 axes, one at a time: options, layouts, alternative constructors
+        for key in ("settings_kw", "pre_kw"):
+            for opt in list(case.get(key) or {}):
+                yield {**case, key: {k: v for k, v in case[key].items() if k != opt}}
+        if case.get("slot_layout"):
+            yield {**case, "slot_layout": None}
+        for key in VARIANT_KEYS:
+            if w.get(key):
+                yield {**case, "world": {k: v for k, v in w.items() if k != key}}
         if w.get("int_inputs") or w.get("container"):
             yield {**case, "world": {**w, "int_inputs": False, "container": None}}
         if len(w["objs"]) > 1:
